@@ -154,9 +154,16 @@ def judge(r, tag, what, info, src_shape, dst_shape, SX, SY, must_empty, exp_scal
     return n_need
 
 
-def check_transform(r, tag, what, info, dst_shape, SX, SY):
-    """info.transform.back on every destination pixel centre == the harness' own mapping (1e-6 px)."""
+def check_transform(r, tag, what, info, dst_shape, SX, SY, corners_only=False):
+    """info.transform.back on destination pixel centres == the harness' own mapping (1e-6 px).
+
+    Every pixel centre, or (same CRS, where the map is affine and three points determine it) the four
+    corner pixels and the central one."""
     xx, yy = centres(dst_shape)
+    if corners_only:
+        ny, nx = dst_shape
+        sel = (np.asarray([0, 0, ny - 1, ny - 1, ny // 2]), np.asarray([0, nx - 1, 0, nx - 1, nx // 2]))
+        xx, yy, SX, SY = xx[sel], yy[sel], SX[sel], SY[sel]
     pts = [xy_(float(x), float(y)) for x, y in zip(xx.ravel(), yy.ravel())]
     got = info.transform.back(pts)
     gx = np.asarray([p.x for p in got], dtype="float64").reshape(SX.shape)
@@ -251,13 +258,18 @@ SRC_A = [
 DST_A = [(5, 6), (2, 3), (1, 1)]
 
 # (sx, sy): destination pixel size in source pixels
-SC_INT = [(1.0, 1.0), (2.0, 2.0), (3.0, 3.0), (2 - 1e-4, 2 - 1e-4), (2 + 1e-4, 2 + 1e-4), (1.0, 2.0), (2.0, 1.0), (2.0, 3.0)]
+SC_INT = [(1.0, 1.0), (2.0, 2.0), (3.0, 3.0), (2 - 1e-4, 2 - 1e-4), (2 + 1e-4, 2 + 1e-4)]
+SC_ANISO = [(1.0, 2.0), (2.0, 1.0), (2.0, 3.0)]
 SC_FRAC = [(0.5, 0.5), (1 / 3, 1 / 3), (1.5, 1.5), (2.5, 2.5), (0.5, 1.0)]
 SUB_FULL = [0.0, 0.01, -0.01, 0.04, -0.04, 0.06, -0.06, 0.12, -0.12, 0.3, -0.3, 0.5]
 SUB_MID = [0.0, 0.01, -0.01, 0.3, -0.3, 0.5]
 SUB_FEW = [0.0, -0.04, 0.3, 0.5]
-TIGHT = [(None, None), (0, None), (None, 0), (0, 0)]
-PADDED = [(p, a) for p in (None, 0, 1, 3) for a in (None, 2, 4) if (p, a) not in ((None, None), (0, None))]
+SC_PADDED = [(1.0, 1.0), (2.0, 2.0), (1.0, 2.0), (0.5, 0.5), (1 / 3, 1 / 3), (1.5, 1.5), (0.5, 1.0)]
+SC_ROT = [(1.0, 1.0), (2.0, 2.0), (0.5, 0.5), (1.5, 1.5), (1.0, 2.0)]
+TIGHT = [(None, None), (0, None)]
+PADDED = [(p, a) for p in (None, 0, 1, 3) for a in (None, 2, 4) if (p, a) not in TIGHT]
+PADAL_ROT = [(None, None), (0, None), (3, None), (None, 2), (0, 4), (1, 2)]
+ALIGN0 = [(None, 0), (0, 0), (1, 0)]
 
 
 @functools.lru_cache(maxsize=None)
@@ -289,8 +301,8 @@ def _gen_A(srcs, dsts, scales, mirrors, rots, subs, padal, ymode):
                         kxs = range(-math.ceil(ew - 1e-9) - m, nsx + m + 1)
                         if ymode == "full":
                             kys = list(range(-math.ceil(eh - 1e-9) - m, nsy + m + 1))
-                        else:
-                            kys = sorted({-math.ceil(eh - 1e-9) - m, -1, 1, nsy})
+                        else:  # classes: "A" = apart above by padding+1, "N" = touching below, ints = literal shifts
+                            kys = sorted({-math.ceil(eh - 1e-9) - m if c == "A" else nsy if c == "N" else c for c in ymode})
                         for mir in mirrors:
                             for sub in subs:
                                 for ky in kys:
@@ -343,7 +355,7 @@ def run_A(case):
             f"translation({lx!r},{ly!r})*{tuple(B)[:6]} [scale={sc} mirror={mir} rot={rot}]; compute_reproject_roi(src, dst, {kw})")
     r = R()
     n_need = judge(r, tag, what, info, sshape, dshape, SX, SY, must_empty, sc, 1e-9)
-    check_transform(r, tag, what, info, dshape, SX, SY)
+    check_transform(r, tag, what, info, dshape, SX, SY, corners_only=True)
     if info.transform.linear is None:
         r.fail(f"reproject_roi:same-crs-not-linear:{tag}", what)
     r.outcome = f"{'paste' if info.paste_ok else 'sampled'}:rs{min(int(info.read_shrink), 4)}:{place}:{_cover(info, dshape, n_need)}"
@@ -375,11 +387,13 @@ PAIRS = [
 # one large-extent configuration per region: (lon, lat, ground pixel in metres)
 CONTINENTAL = {
     # sized so that every placement stays inside lon (-180,180), lat (-85,85)
-    "world": (10.0, 15.0, 140e3), "au": (130.0, -27.0, 60e3), "utm33": (15.0, 45.0, 15e3),
-    "utm55": (147.0, -30.0, 15e3), "uk": (-3.5, 55.0, 15e3), "nz": (171.0, -41.0, 8e3),
+    "world": (10.0, 15.0, 140e3), "au": (132.0, -27.0, 80e3), "utm33": (15.0, 45.0, 15e3),
+    "utm55": (147.0, -30.0, 15e3), "uk": (-3.5, 55.0, 15e3), "nz": (172.0, -41.0, 10e3),
 }
 SRC_B = (32, 40)
-K_B = {"third": (1 / 3, (48, 48)), "one": (1.0, (24, 30)), "three": (3.0, (10, 8))}
+K_B = {"third": (1 / 3, (48, 48)), "one": (1.0, (24, 30)), "three": (3.0, (10, 8)),
+       # large destination rasters for the continental slice
+       "C-third": (1 / 3, (48, 48)), "C-one": (1.0, (44, 48)), "C-three": (3.0, (14, 16))}
 # destination centre = source centre + d * (half source + half destination extent), in source pixels
 PLACE_B = {
     "contained": (0.0, 0.0), "right": (0.5, 0.0), "left": (-0.5, 0.0), "down": (0.0, 0.5), "up": (0.0, -0.5),
@@ -516,7 +530,7 @@ def run_B(case):
 def _gen_B(kind, locs, places, padal, variants):
     for es, ed, region in PAIRS:
         for loc in locs:
-            for kname in K_B:
+            for kname in (k for k in K_B if k.startswith("C-") == (kind == "C")):
                 for pname in places:
                     for pad, al in padal:
                         for v in variants:
@@ -528,28 +542,31 @@ def slices(tier):
     th = tier == "thorough"
     s_all = (0, 1, 2)
     dq = DST_A[:1]
+    d2 = DST_A[:2] if th else dq
+    ym = "full" if th else ("A", -3, -2, 0, "N")  # multiples of 2 and 3 so that the shrinking paste path overlaps in y
+    Y4 = ("A", -1, 1, "N")
+    M4 = (0, 1, 2, 3)
     out = [
         e1.Slice("axis", gen_axis, run_axis,
                  "compute_axis_overlap: Ns,Nd in 1..6 x 11 scales x t in quarter steps of [-10,10] + k+-0.01, k+-1e-9"),
-        e1.Slice("A-tight-int", lambda: _gen_A(s_all, DST_A[:2] if th else dq, SC_INT, (0, 1, 2, 3), (0,), SUB_FULL, TIGHT,
-                                               "full" if th else "classes"), run_A,
-                 "same CRS, no rotation, integer-like and anisotropic scales, padding in {None,0} x align in {None,0}: paste candidates"),
-        e1.Slice("A-tight-frac", lambda: _gen_A(s_all, DST_A[:2] if th else dq, SC_FRAC, (0, 1, 2, 3), (0,), SUB_MID, TIGHT,
-                                                "full" if th else "classes"), run_A,
-                 "same CRS, no rotation, fractional scales, padding in {None,0} x align in {None,0}"),
-        e1.Slice("A-padded", lambda: _gen_A(s_all, DST_A if th else dq, SC_INT + SC_FRAC, (0, 1, 2, 3), (0,),
-                                            SUB_MID if th else SUB_FEW, PADDED, "classes"), run_A,
-                 "same CRS, no rotation, every scale, padding in {None,0,1,3} x align in {None,2,4} (minus the tight pairs)"),
-        e1.Slice("A-rot", lambda: _gen_A(s_all, DST_A[:2] if th else dq,
-                                         [(1.0, 1.0), (2.0, 2.0), (0.5, 0.5), (1.5, 1.5), (1.0, 2.0)], (0, 1, 2, 3),
-                                         (15, 90, -30) if th else (15, 90), (0.0, 0.3), TIGHT[:2] + PADDED + [(None, 0)], "classes"), run_A,
-                 "same CRS, destination rotated by 15/90 degrees about its footprint, all padding/align"),
+        e1.Slice("A-tight-int", lambda: _gen_A(s_all, d2, SC_INT, M4, (0,), SUB_FULL, TIGHT, ym), run_A,
+                 "same CRS, no rotation, integer-like scales, 12 sub-pixel shifts, padding in {None,0}, no align: paste candidates"),
+        e1.Slice("A-tight-frac", lambda: _gen_A(s_all, d2, SC_ANISO + SC_FRAC, M4, (0,), SUB_MID, TIGHT, "full" if th else Y4), run_A,
+                 "same CRS, no rotation, anisotropic and fractional scales, padding in {None,0}, no align"),
+        e1.Slice("A-padded", lambda: _gen_A(s_all, DST_A if th else dq, SC_INT + SC_ANISO + SC_FRAC if th else SC_PADDED, M4, (0,),
+                                            SUB_MID if th else SUB_FEW, PADDED, Y4), run_A,
+                 "same CRS, no rotation, padding in {None,0,1,3} x align in {None,2,4} (minus the two tight pairs)"),
+        e1.Slice("A-rot", lambda: _gen_A(s_all, d2, SC_ROT, M4, (15, 90, -30) if th else (15, 90), (0.0, 0.3),
+                                         TIGHT + PADDED if th else PADAL_ROT, Y4), run_A,
+                 "same CRS, destination rotated about its footprint, padding/align pairs"),
+        e1.Slice("A-align0", lambda: _gen_A(s_all, dq, SC_ROT, (0, 3), (0, 15) if th else (0,), SUB_FEW, ALIGN0, Y4), run_A,
+                 "same CRS, align=0 (accepted by compute_reproject_roi as 'no alignment': `align in (None, 0)`)"),
         e1.Slice("B-local", lambda: _gen_B("B", range(5), list(PLACE_B), PADAL_B + ([(0, 2), (3, None)] if th else []),
                                            ("north-up", "dst-rot", "src-yup") if th else ("north-up",)), run_B,
                  "14 ordered CRS pairs x 5 locations x 3 scale classes x 10 placements; 1 km ground pixels, rasters <= 48x48"),
-        e1.Slice("B-continental", lambda: _gen_B("C", (0,), list(PLACE_B), [(None, None), (0, None), (1, None)],
+        e1.Slice("B-continental", lambda: _gen_B("C", (0,), list(PLACE_B)[:6], [(None, None), (0, None), (1, None)],
                                                  ("north-up", "dst-rot") if th else ("north-up",)), run_B,
-                 "same pairs, one large-extent configuration per region (8-140 km pixels): boundary curvature"),
+                 "same pairs, one large-extent configuration per region (10-140 km pixels, destination up to 48x48, 6 overlapping placements): boundary curvature"),
     ]
     return out
 
@@ -562,12 +579,13 @@ def main(ctx):
     )
     ctx.bounds = {
         "axis": {"Ns,Nd": "1..6", "s": AX_S, "t": "k/4 in [-10,10], k+-0.01, k+-1e-9 for k in -7..7"},
-        "A": {"src": [s[0] for s in SRC_A], "dst": DST_A, "scales_int": SC_INT, "scales_frac": SC_FRAC, "sub_pixel": SUB_FULL,
+        "A": {"src": [s[0] for s in SRC_A], "dst": DST_A, "scales_int": SC_INT, "scales_aniso": SC_ANISO, "scales_frac": SC_FRAC, "sub_pixel": SUB_FULL,
               "mirror": "none,x,y,xy", "rotation": "0,15,90 (+ -30 thorough)", "padding": "None,0,1,3", "align": "None,0,2,4",
               "x_shift": "every integer from footprint fully left of the image by padding+1 to fully right by padding+1",
-              "y_shift": "4 classes (apart above, partial top, inside, touching below); full range in thorough tight slices"},
+              "y_shift": "classes: apart above by padding+1, literal shifts (-3,-2,0 in A-tight-int; -1,1 elsewhere), touching below; "
+                         "full integer range in the thorough tight slices"},
         "B": {"pairs": [f"{a}>{b}" for a, b, _ in PAIRS], "locations": REGIONS, "src_shape": SRC_B,
-              "scale_classes": {k: v[0] for k, v in K_B.items()}, "placements": PLACE_B, "padding_align": PADAL_B,
+              "scale_classes": {k: list(v) for k, v in K_B.items()}, "placements": PLACE_B, "padding_align": PADAL_B,
               "continental": CONTINENTAL},
         "max_raster": "48x48", "eps_px": EPS,
     }
